@@ -35,10 +35,13 @@ fn role_of(u: &str) -> Option<Role> { match u { "adm" => Some(Role::Admin), "ed"
 impl World {
     /// setup spec: `acl=<kg>:<user>:<role>,…/sess=<user>:<kg>,…` (either list may be `-`)
     pub fn new(spec: &str) -> Result<World, String> {
-        let dir = tempfile::TempDir::new().map_err(|e| e.to_string())?;
+        // tmpfs when available: the box is shared and disk latency otherwise dominates the run time
+        let dir = if std::path::Path::new("/dev/shm").is_dir() { tempfile::Builder::new().prefix("ilvh").tempdir_in("/dev/shm") } else { tempfile::TempDir::new() }.map_err(|e| e.to_string())?;
         let mut c = Config::default();
         c.storage.data_dir = dir.path().join("data");
         c.storage.performance.num_threads = 1;
+        // durability is not what these properties are about: no fsync per write (same code paths otherwise)
+        c.storage.persist.durability_mode = inputlayer::DurabilityMode::Batched;
         c.http.auth.credentials_file = Some(dir.path().join("cred.toml"));
         let h = Handler::from_config(c)?;
         let rt = tokio::runtime::Builder::new_current_thread().enable_all().build().map_err(|e| e.to_string())?;
